@@ -60,7 +60,14 @@ theorem le_grant (i : Nat) (s : St) (wk : Kind) (wi : Nat) : LE i s (grant s wk 
   unfold grant
   split
   · exact le_enqueue i _ _ _
-  · exact le_trans (le_same i s _ rfl rfl rfl) (le_enqueue i _ _ _)
+  · split
+    · exact le_same i s _ rfl rfl rfl
+    · exact le_trans (le_same i s _ rfl rfl rfl) (le_enqueue i _ _ _)
+
+theorem le_removeTimer (i : Nat) (s : St) (tm : Timer) : LE i s (removeTimer s tm) := le_same i _ _ rfl rfl rfl
+
+theorem le_removeWaiter (i : Nat) (s : St) (q : Nat) (w : Kind × Nat) : LE i s (removeWaiter s q w) := by
+  unfold removeWaiter; split <;> exact le_same i _ _ rfl rfl rfl
 
 theorem le_wakeCond (i : Nat) (s : St) (k : Nat) : LE i s (wakeCond s k) := by
   unfold wakeCond
@@ -160,6 +167,27 @@ theorem le_runProg (k : Kind) (i : Nat) :
         · split
           · exact hcont _ s (le_refl i s)
           · exact le_refl i s
+    | waitT q d =>
+      simp only [runProg]
+      split
+      · exact le_refl i s
+      · split
+        · split
+          · rename_i cd _ _ _
+            have h0 : LE i s { s with conds := s.conds.set q { cd with waiters := cd.waiters ++ [(k, i)] } } :=
+              le_same i s _ rfl rfl rfl
+            exact le_trans (le_trans h0 (le_setProg i _ i (.waitingT q (s.now + d) :: r))) (le_addTimer i _ _)
+          · exact hcont c s (le_refl i s)
+        · exact hcont _ _ (le_same i s _ rfl rfl rfl)
+    | waitingT q t =>
+      simp only [runProg]
+      split
+      · exact le_refl i s
+      · split
+        · exact hcont _ _ (le_trans (le_same i s _ rfl rfl rfl) (le_removeTimer i _ _))
+        · split
+          · exact le_refl i s
+          · exact hcont _ _ (le_removeWaiter i s q (k, i))
     | sleep d =>
       simp only [runProg]
       split
@@ -295,11 +323,31 @@ theorem sim_spawnTask {m σ : St} (h : Sim m σ) (t : Nat) : Sim (spawnTask m t)
 
 theorem sim_grant {m σ : St} (h : Sim m σ) (wk : Kind) (wi : Nat) : Sim (grant m wk wi) (grant σ wk wi) := by
   have ht := h.1
+  have htm := h.2.2.1
   unfold grant
   rw [← ht]
   cases m.tasks[wi]? with
   | none => exact sim_enqueue h _ _ _
-  | some tk => exact sim_enqueue (sim_tasks h _) _ _ _
+  | some tk =>
+    simp only
+    have hf : timerFired σ tk wk wi = timerFired m tk wk wi := by unfold timerFired; rw [htm]
+    rw [hf]
+    cases timerFired m tk wk wi with
+    | true => exact sim_tasks h _
+    | false => exact sim_enqueue (sim_tasks h _) _ _ _
+
+theorem sim_removeTimer {m σ : St} (h : Sim m σ) (tm : Timer) : Sim (removeTimer m tm) (removeTimer σ tm) := by
+  obtain ⟨h1, h2, h3, h4, h5, h6⟩ := h
+  exact ⟨h1, h2, by unfold removeTimer; simp only; rw [h3], h4, h5, h6⟩
+
+theorem sim_removeWaiter {m σ : St} (h : Sim m σ) (q : Nat) (w : Kind × Nat) :
+    Sim (removeWaiter m q w) (removeWaiter σ q w) := by
+  have hc := h.2.1
+  unfold removeWaiter
+  rw [← hc]
+  cases m.conds[q]? with
+  | none => exact h
+  | some cd => exact sim_conds h _
 
 theorem sim_wakeCond {m σ : St} (h : Sim m σ) (k : Nat) : Sim (wakeCond m k) (wakeCond σ k) := by
   have hc := h.2.1
@@ -436,6 +484,40 @@ theorem sim_runProg (k : Kind) (i : Nat) :
           by_cases h2 : tj.done = true
           · simp only [h2, if_true]; exact hcont _ _ _ _ _ h
           · simp only [h2]; exact h
+    | waitT q d =>
+      simp only [runProg]
+      rw [← hc]
+      cases m.conds[q]? with
+      | none => exact h
+      | some cd =>
+        simp only
+        have hd : σ.now + d = m.now + d := by rw [hn]
+        by_cases h2 : (cd.permits == 0) = true
+        · simp only [h2, if_true]
+          by_cases h1 : m.now < m.now + d
+          · have h1' : σ.now < σ.now + d := by rw [← hn]; exact h1
+            simp only [h1, h1', if_true]
+            rw [hd]
+            exact sim_addTimer (sim_setProg (sim_conds h _) i _) _
+          · have h1' : ¬ σ.now < σ.now + d := by rw [← hn]; exact h1
+            simp only [h1, h1', if_false]
+            exact hcont c _ _ _ _ h
+        · simp only [h2]; exact hcont _ _ _ _ _ (sim_conds h _)
+    | waitingT q t =>
+      simp only [runProg]
+      rw [← ht]
+      cases m.tasks[i]? with
+      | none => exact h
+      | some tk =>
+        simp only
+        by_cases h2 : tk.granted = true
+        · simp only [h2, if_true]; exact hcont _ _ _ _ _ (sim_removeTimer (sim_tasks h _) _)
+        · simp only [h2]
+          by_cases h1 : m.now < t
+          · have h1' : σ.now < t := by rw [← hn]; exact h1
+            simp only [h1, h1', if_true]; exact h
+          · have h1' : ¬ σ.now < t := by rw [← hn]; exact h1
+            simp only [h1, h1', if_false]; exact hcont _ _ _ _ _ (sim_removeWaiter h q (k, i))
     | sleep d =>
       simp only [runProg]
       rw [hn]
@@ -973,16 +1055,21 @@ theorem le_runH (i : Nat) : ∀ (h : List Instr) (s : St), LE i s (runH h s) := 
     case notifyAll k => exact le_trans (le_wakeAll i s k) (ih _)
     all_goals exact ih s
 
-theorem sim_foldl_pushT (l : List Timer) :
-    ∀ {m σ : St}, Sim m σ →
-      Sim (l.foldl (fun s tm => pushEntry s ⟨tm.kind, tm.idx, tm.deadline, .timer⟩) m)
-        (l.foldl (fun s tm => pushEntry s ⟨tm.kind, tm.idx, tm.deadline, .timer⟩) σ) := by
+theorem sim_fire {m σ : St} (h : Sim m σ) (tm : Timer) : Sim (fire m tm) (fire σ tm) := by
+  have hg : isGranted σ tm.idx = isGranted m tm.idx := by unfold isGranted; rw [h.1]
+  unfold fire
+  rw [hg]
+  cases isGranted m tm.idx with
+  | true => exact h
+  | false => exact sim_pushEntry h _ _ rfl
+
+theorem sim_foldl_pushT (l : List Timer) : ∀ {m σ : St}, Sim m σ → Sim (l.foldl fire m) (l.foldl fire σ) := by
   induction l with
   | nil => intro m σ h; exact h
   | cons a l ih =>
     intro m σ h
     simp only [List.foldl_cons]
-    exact ih (sim_pushEntry h _ _ rfl)
+    exact ih (sim_fire h a)
 
 theorem sim_activate {m σ : St} (h : Sim m σ) (t : Nat) : Sim (activate t m) (activate t σ) := by
   unfold activate
@@ -990,14 +1077,18 @@ theorem sim_activate {m σ : St} (h : Sim m σ) (t : Nat) : Sim (activate t m) (
   refine sim_foldl_pushT _ ?_
   exact ⟨h.1, h.2.1, rfl, rfl, h.2.2.2.2.1, h.2.2.2.2.2⟩
 
-theorem le_foldl_pushT (i : Nat) (l : List Timer) :
-    ∀ s : St, LE i s (l.foldl (fun s tm => pushEntry s ⟨tm.kind, tm.idx, tm.deadline, .timer⟩) s) := by
+theorem le_fire (i : Nat) (s : St) (tm : Timer) : LE i s (fire s tm) := by
+  unfold fire; split
+  · exact le_refl i s
+  · exact le_pushEntry i s _
+
+theorem le_foldl_pushT (i : Nat) (l : List Timer) : ∀ s : St, LE i s (l.foldl fire s) := by
   induction l with
   | nil => intro s; exact le_refl i s
   | cons a l ih =>
     intro s
     simp only [List.foldl_cons]
-    exact le_trans (le_pushEntry i s _) (ih _)
+    exact le_trans (le_fire i s a) (ih _)
 
 /-- `activate` keeps log and ghost counter, sets the clock -/
 theorem activate_view (t : Nat) (s : St) :
@@ -1005,12 +1096,17 @@ theorem activate_view (t : Nat) (s : St) :
   unfold activate
   obtain ⟨h1, h2, _⟩ := le_foldl_pushT 0 (s.timers.filter (·.deadline ≤ t))
     { s with now := t, phase := .outside, timers := s.timers.filter (t < ·.deadline) }
-  have : ∀ (l : List Timer) (u : St),
-      (l.foldl (fun s tm => pushEntry s ⟨tm.kind, tm.idx, tm.deadline, .timer⟩) u).log = u.log := by
+  have : ∀ (l : List Timer) (u : St), (l.foldl fire u).log = u.log := by
     intro l
     induction l with
     | nil => intro u; rfl
-    | cons a l ih => intro u; simp only [List.foldl_cons]; rw [ih, (same_pushEntry u _).2.2.2.2]
+    | cons a l ih =>
+      intro u
+      simp only [List.foldl_cons]
+      rw [ih]
+      unfold fire; split
+      · rfl
+      · exact (same_pushEntry u _).2.2.2.2
   exact ⟨this _ _, h2, h1⟩
 
 theorem consume_stop (P : Params) (t n : Nat) (rest : List (Nat × Nat)) (pos : Nat) (s : St)
